@@ -27,7 +27,6 @@ package state
 //@ func (*StateNode).Capacity
 //@   prop C11
 //@   modifies nothing
-//@   after lo.Assign assume [assignFresh] fresh($r0)
 //@   ensures [fresh] fresh(result)
 //@   loop 1 invariant fresh(ret)
 
@@ -136,3 +135,27 @@ package state
 //@   ensures [hostPortUsage] result.1 == nil ==> fresh(result.0.hostPortUsage)
 //@   ensures [volumeUsage] result.1 == nil ==> fresh(result.0.volumeUsage)
 //@   ensures [apart] result.1 == nil ==> mapsApart(result.0)
+
+// ---- (4) deletion marks: exactly the listed nodes that are tracked change, and only in the asked direction ----
+//@ pure nodesNonNil(c *Cluster) bool = forall id string {id in c.nodes} :: (id in c.nodes) ==> c.nodes[id] != nil
+//@ func (*Cluster).MarkForDeletion
+//@   prop C11
+//@   repinv [tracked] nodesNonNil(c)
+//@   modifies * except c.nodes, c.nodes[:]
+//@   ensures [set] forall j int {providerIDs[j]} :: (0 <= j && j < len(providerIDs) && (providerIDs[j] in c.nodes)) ==> c.nodes[providerIDs[j]].markedForDeletion
+//@   ensures [kept] forall n *StateNode {n.markedForDeletion} :: old(n.markedForDeletion) ==> n.markedForDeletion
+//@   ensures [onlyListed] forall n *StateNode {n.markedForDeletion} :: (n.markedForDeletion && !old(n.markedForDeletion)) ==> (exists j int {providerIDs[j]} :: 0 <= j && j < len(providerIDs) && (providerIDs[j] in c.nodes) && c.nodes[providerIDs[j]] == n)
+//@   loop 1 invariant [set] forall j int {providerIDs[j]} :: (0 <= j && j <= $i && (providerIDs[j] in c.nodes)) ==> c.nodes[providerIDs[j]].markedForDeletion
+//@   loop 1 invariant [kept] forall n *StateNode {n.markedForDeletion} :: old(n.markedForDeletion) ==> n.markedForDeletion
+//@   loop 1 invariant [onlyListed] forall n *StateNode {n.markedForDeletion} :: (n.markedForDeletion && !old(n.markedForDeletion)) ==> (exists j int {providerIDs[j]} :: 0 <= j && j <= $i && (providerIDs[j] in c.nodes) && c.nodes[providerIDs[j]] == n)
+
+//@ func (*Cluster).UnmarkForDeletion
+//@   prop C11
+//@   repinv [tracked] nodesNonNil(c)
+//@   modifies * except c.nodes, c.nodes[:]
+//@   ensures [cleared] forall j int {providerIDs[j]} :: (0 <= j && j < len(providerIDs) && (providerIDs[j] in c.nodes)) ==> !c.nodes[providerIDs[j]].markedForDeletion
+//@   ensures [kept] forall n *StateNode {n.markedForDeletion} :: !old(n.markedForDeletion) ==> !n.markedForDeletion
+//@   ensures [onlyListed] forall n *StateNode {n.markedForDeletion} :: (!n.markedForDeletion && old(n.markedForDeletion)) ==> (exists j int {providerIDs[j]} :: 0 <= j && j < len(providerIDs) && (providerIDs[j] in c.nodes) && c.nodes[providerIDs[j]] == n)
+//@   loop 1 invariant [cleared] forall j int {providerIDs[j]} :: (0 <= j && j <= $i && (providerIDs[j] in c.nodes)) ==> !c.nodes[providerIDs[j]].markedForDeletion
+//@   loop 1 invariant [kept] forall n *StateNode {n.markedForDeletion} :: !old(n.markedForDeletion) ==> !n.markedForDeletion
+//@   loop 1 invariant [onlyListed] forall n *StateNode {n.markedForDeletion} :: (!n.markedForDeletion && old(n.markedForDeletion)) ==> (exists j int {providerIDs[j]} :: 0 <= j && j <= $i && (providerIDs[j] in c.nodes) && c.nodes[providerIDs[j]] == n)
